@@ -398,6 +398,11 @@ def run(ses, rep):
 
 def replay(path):
     v, rec = carriers()
+    if not v:
+        from .. import cfgorigin
+        fails = cfgorigin.battery(common.native_build("default"))
+        if fails:
+            v = f"scenario {fails[0][0]}: {fails[0][1]}"
     print(v or "carrier battery: every option means the same in all carriers")
     if v:
         print(f"VIOLATION property=C20 replay={path}")
